@@ -102,8 +102,8 @@ def main(argv=None):
     if hy:
         broken.append(('hygiene', '; '.join(hy[:5])))
     if tier == 'thorough' and ps['ok']:
-        crc, cout = core.sh('timeout 1500 coqchk -o -silent -Q %s JB -Q %s JB.Props JB.Props.%s' % (
-            core.COQ, os.path.join(core.WORK, 'props'), pid), cwd=core.COQ, timeout=1600)
+        # the independent checker re-checks the make-built Props/<pid>.vo and everything it depends on
+        crc, cout = core.sh('timeout 3000 coqchk -o -silent -Q %s JB JB.Props.%s' % (core.COQ, pid), cwd=core.COQ, timeout=3100)
         ctx.stats['coqchk'] = 'ok' if crc == 0 else 'rc=%d' % crc
         ctx.stats['coqchk_tail'] = cout[-600:]
         if crc != 0:
